@@ -279,6 +279,33 @@ def main(argv):
                 else:
                     c.broken.append("C01 driver D failed: %s" % e3[-300:])
 
+        # ------------------------------------------------------------ the COMPLETE tool model (options, Fields + Murmur
+        # keys, records, seen-set, writer): nothing is taken from the implementation
+        if drv is not None:
+            tiny = [i for i, cse in enumerate(cases) if len(cse[1]) < 6000]
+            tf = []
+            for i in tiny:
+                args = cases[i][3]
+                spec = args[args.index("-f") + 1] if "-f" in args else "1-"
+                dl = args[args.index("-d") + 1].encode() if "-d" in args else b"\t"
+                tf.append("TF %s %s %s" % (spec.encode().hex(), dl.hex(), hexd(cases[i][1])))
+            rc, fo, e5 = run_lines(drv, tf, timeout=900)
+            if len(fo) != len(tf):
+                c.broken.append("C01 driver TF failed: %s" % e5[-300:])
+            else:
+                dis = []
+                for i, mo in zip(tiny, fo):
+                    st, out = results[i]
+                    impl = "OK " + hexd(out) if st == 0 else "STATUS %s" % st
+                    if mo != impl:
+                        dis.append((cases[i], mo, impl))
+                c.cov["traces_validated_against_impl"] += len(tiny)
+                c.cov["distribution"]["(complete-model runs: options+Fields+Murmur+seen-set)"] = len(tiny)
+                if dis:
+                    cs, mo, impl = min(dis, key=lambda d: len(d[0][1]))
+                    c.broken.append("tool correspondence COMPLETE dedupe model (Fields+Murmur+seen-set) vs bin/dedupe: %d disagreement(s); smallest: stdin=%r args=%r model=%s impl=%s" % (
+                        len(dis), cs[1][:100], cs[3], mo[:200], impl[:200]))
+
         # ------------------------------------------------------------ parallel mode
         pcases = []
         preps = 60 if not thorough else 600
@@ -340,7 +367,13 @@ def main(argv):
                 a = [] if a == "-" else a.split()
                 b = [] if b == "-" else b.split()
                 pl.append("P %s %s %d %s" % (hexd(d0), hexd(d1), len(a), " ".join(a + b)))
+            # ... and the complete -p model with its own keys
+            pf = ["PF %s 09 %s %s" % (b"1-".hex(), hexd(d0), hexd(d1)) for d0, d1, _ in pcases]
+            rc, pfo, _ = run_lines(drv, pf, timeout=900)
             rc, pm, e4 = run_lines(drv, pl, timeout=900)
+            if len(pfo) == len(pm) and pfo != pm:
+                j = next(x for x in range(len(pm)) if pm[x] != pfo[x])
+                c.broken.append("complete -p model (own Murmur keys) and key-fed -p model disagree on in0=%r in1=%r: %s vs %s" % (pcases[j][0][:60], pcases[j][1][:60], pfo[j][:100], pm[j][:100]))
             if len(pm) != len(pcases):
                 c.broken.append("C01 driver P failed: %s" % e4[-300:])
             else:
